@@ -370,7 +370,7 @@ static void normalise_process(int argc, char** argv)
         static char absbuf[4096];
         bool is_path = i > 1 &&
             (!strcmp(argv[i - 1], "--out") || !strcmp(argv[i - 1], "--replay-txt") ||
-                !strcmp(argv[i - 1], "--tmpdir"));
+                !strcmp(argv[i - 1], "--tmpdir") || !strcmp(argv[i - 1], "--trace"));
         if (is_path && argv[i][0] != '/')
         {
             char cwd[2048];
@@ -448,6 +448,8 @@ int main(int argc, char** argv)
                 copy_arg(a.tmpdir, sizeof(a.tmpdir), val());
             else if (!strcmp(k, "--gdb-on-fail"))
                 g_gdb_on_fail = true;
+            else if (!strcmp(k, "--trace"))
+                copy_arg(g_trace_path, sizeof(g_trace_path), val());
             else if (!strcmp(k, "--list"))
                 a.list = true;
             else
